@@ -39,6 +39,10 @@ def scenarios(ctx, rng):
     for k in range(n_text):
         scs.append(pc.text_scenario(rng, w, k, nonascii=(k % 2 == 1)))
     scs.append(pc.text_scenario(rng, w, 90, names=['a.log', '日本語.log']))
+    # sources that print nothing (no timestamp at all / every message before -a) with the WIDEST name: the -w width is that of the
+    # widest PRINTED name, and colours/prefixes of the printing sources are unaffected
+    scs.append(pc.text_scenario(rng, w, 87, names=['a.log', 'bb.log'], silent=[(2, 'a-much-longer-name-that-prints-nothing.log', 'old')]))
+    scs.append(pc.text_scenario(rng, w, 88, names=['a.log', 'bb.log'], silent=[(1, 'silent-and-wider-than-the-others.log', 'nolog')]))
     scs.append(pc.wtmp_text_scenario(rng, w, 91))
     scs.append(pc.evtx_scenario(rng, w, 92 + ctx.seed % 3))
     scs.append(pc.journal_scenario(rng, w, 95, mode='short'))
